@@ -144,6 +144,18 @@ def concat_seqs(parts, kind):
 
 
 class ExprMixin:
+    def poison(self, path, exc, boolean=False):
+        """A lazily evaluated element (comprehension body, filter) hit an engine limit *after* the interpretation of the path
+        finished, i.e. while a contract clause was being stated over it.  While interpreting, the limit propagates (the path is
+        reported `unsupported`); afterwards the element becomes a fresh unconstrained term: every clause that depends on it is then
+        unprovable (reported undischarged), instead of the whole check crashing.  Never used to make anything provable."""
+        if getattr(self, "interpreting", 0):
+            raise exc
+        self.poisoned = getattr(self, "poisoned", []) + [str(exc)]
+        if boolean:
+            return path.fresh("poison_b", z3.BoolSort())
+        return SV(path.fresh("poison"))
+
     # ------------------------------------------------------------------ dispatcher
     def eval(self, node, env: Env, path, merge=False):
         m = getattr(self, "e_" + node.__class__.__name__, None)
@@ -394,18 +406,24 @@ class ExprMixin:
             self.materialise_raises(src, path)
 
         def at(i, node=node, gen=gen, env=env, src=src):
-            e2 = env.child()
-            self.assign_target(gen.target, src.at(i), e2, path)
-            with self.elem_scope() as sc:
-                v = self.eval(node.elt, e2, path, True)
-            return v
+            try:
+                e2 = env.child()
+                self.assign_target(gen.target, src.at(i), e2, path)
+                with self.elem_scope() as sc:
+                    v = self.eval(node.elt, e2, path, True)
+                return v
+            except Unsupported as e:
+                return self.poison(path, e)
 
         def raises(i, node=node, gen=gen, env=env, src=src):
-            e2 = env.child()
-            self.assign_target(gen.target, src.at(i), e2, path)
-            with self.elem_scope() as sc:
-                self.eval(node.elt, e2, path, True)
-            return sc.cond()
+            try:
+                e2 = env.child()
+                self.assign_target(gen.target, src.at(i), e2, path)
+                with self.elem_scope() as sc:
+                    self.eval(node.elt, e2, path, True)
+                return sc.cond()
+            except Unsupported as e:
+                return self.poison(path, e, boolean=True)
         return SSeq(n, at, kind, raises)
 
     def e_DictComp(self, node, env, path, merge):
@@ -876,13 +894,19 @@ class FilteredGen:
         return e2
 
     def pred(self, i, path):
-        e2 = self._env(i, path)
-        acc = z3.BoolVal(True)
-        with self.I.elem_scope():
-            for c in self.gen.ifs:
-                acc = z3.And(acc, to_bool_term(self.I.eval(c, e2, path, True)))
-        return acc
+        try:
+            e2 = self._env(i, path)
+            acc = z3.BoolVal(True)
+            with self.I.elem_scope():
+                for c in self.gen.ifs:
+                    acc = z3.And(acc, to_bool_term(self.I.eval(c, e2, path, True)))
+            return acc
+        except Unsupported as e:
+            return self.I.poison(path, e, boolean=True)
 
     def elt(self, i, path):
-        with self.I.elem_scope():
-            return self.I.eval(self.node.elt, self._env(i, path), path, True)
+        try:
+            with self.I.elem_scope():
+                return self.I.eval(self.node.elt, self._env(i, path), path, True)
+        except Unsupported as e:
+            return self.I.poison(path, e)
